@@ -35,9 +35,9 @@ STYLES = {
     "Python": ["same", "multi", "annot", "bracedefault", "async", "decorated"],
 }
 METHOD_STYLES = {
-    "C++": ["same", "next", "multi"],
-    "C#": ["same", "next", "multi", "async"],
-    "Java": ["same", "next", "multi", "throws", "throws-long"],
+    "C++": ["same", "next", "multi", "ctor"],
+    "C#": ["same", "next", "multi", "async", "ctor"],
+    "Java": ["same", "next", "multi", "throws", "throws-long", "ctor"],
     "JavaScript": ["method", "method-static", "method-async"],
     "TypeScript": ["method", "method-typed"],
     "Python": ["same", "multi", "annot", "async"],
@@ -98,6 +98,9 @@ def header(lang, name, style, method=False):
     # C family: the documented header starts at the name
     ret = {"C": "int", "C++": "int", "C#": "public int" if method else "int", "Java": "public int"}[lang]
     p = {"C": "int a, char *b", "C++": "int a, const std::string& b", "C#": "int a, string b", "Java": "int a, String b"}[lang]
+    if style == "ctor":
+        # constructor-like member: nothing in front of the name (package-private / private-by-default), e.g. first thing after the class's '{'
+        return [f"{name}({p})"], (0, 0), "same", "}"
     if style == "next":
         opener = "next"
         return [f"{ret} {name}({p})"], (0, len(ret) + 1), opener, "}"
